@@ -175,6 +175,12 @@ def dispatch (c : Ctx) (r : Row) (options : BitVec 32) (o0 o1 o2 o3 : Op) : Exce
     else if isign3 == MR + 4 * 64 then emitVexEvexM c opcode options (r32 o1.id) (memOf o0) o2.immVal 1
     else .error .invalidInstruction
   let lx01 := opcodeLBySize (o0.rmSize ||| o1.rmSize)
+  -- VexRmMr: load = main opcode, store = alternative opcode (keeping LL)
+  let vexRmMr (opc : BitVec 32) : Except Err (List Byte) :=
+    if isign3 == RR then emitVexEvexR c opc options (r32 o0.id) (r32 o1.id) 0 0
+    else if isign3 == RM then emitVexEvexM c opc options (r32 o0.id) (memOf o1) 0 0
+    else if isign3 == MR then emitVexEvexM c ((opc &&& kLL_Mask) ||| r.altOp) options (r32 o1.id) (memOf o0) 0 0
+    else .error .invalidInstruction
   match r.encoding with
   | 0x14 => x86RM (addPrefixBySize opcode o0.rmSize) 0 0                       -- X86Rm
   | 0x15 =>                                                                       -- X86Rm_Raw66H (66 + [F2|F3]: the 66 byte is written first)
@@ -216,6 +222,8 @@ def dispatch (c : Ctx) (r : Row) (options : BitVec 32) (o0 o1 o2 o3 : Op) : Exce
   | 0x7d => vexRvmi ((opcode ||| (b2w o0.isMask <<< 12)) ||| lx01)                 -- VexRvmi_Lx_KEvex
   | 0x7a => vexRvmi opcode                                                         -- VexRvmi
   | 0x7c => vexRvmi (opcode ||| lx01)                                              -- VexRvmi_Lx
+  | 0x83 => vexRmMr opcode                                                         -- VexRmMr
+  | 0x84 => vexRmMr (opcode ||| lx01)                                               -- VexRmMr_Lx
   | 0x62 =>                                                                        -- VexMr_Lx
     let opcode := opcode ||| lx01
     if isign3 == RR then emitVexEvexR c opcode options (r32 o1.id) (r32 o0.id) 0 0
